@@ -12,9 +12,18 @@ mkdir -p "$VERIF_DIR/bin" "$VERIF_DIR/work"
 export GOCOVERDIR="$VERIF_DIR/work/cov-parent"; mkdir -p "$GOCOVERDIR"
 COVERPKG=verifharness/cmd/vcheck,github.com/issue9/mux/v9,github.com/issue9/mux/v9/internal/tree,github.com/issue9/mux/v9/internal/syntax,github.com/issue9/mux/v9/internal/trace,github.com/issue9/mux/v9/types
 
+# MUX_REPO (default /repo) is only used by background sweeps that run against a snapshot of /repo's HEAD
+# (vp run --with-repo): the module file is copied with the replace directive pointing there. The commands
+# registered in MANIFEST.json never set it, so they always build against /repo's current working tree.
+MODFLAG=()
+if [ -n "${MUX_REPO:-}" ] && [ "$MUX_REPO" != "/repo" ]; then
+  sed "s|=> /repo|=> $MUX_REPO|" go.mod > "$VERIF_DIR/work/go.alt.mod"; cp go.sum "$VERIF_DIR/work/go.alt.sum"
+  MODFLAG=("-modfile=$VERIF_DIR/work/go.alt.mod")
+fi
+
 build() { # $1 = output name, rest = extra flags
   local out="$1"; shift
-  if ! go build -tags verif "$@" -o "$VERIF_DIR/bin/$out" ./cmd/vcheck > "$VERIF_DIR/work/build-$out.log" 2>&1; then
+  if ! go build "${MODFLAG[@]}" -tags verif "$@" -o "$VERIF_DIR/bin/$out" ./cmd/vcheck > "$VERIF_DIR/work/build-$out.log" 2>&1; then
     echo "INCONCLUSIVE build of the harness against /repo failed (see work/build-$out.log)"
     tail -n 20 "$VERIF_DIR/work/build-$out.log"
     exit 2
